@@ -20,7 +20,7 @@ def key_of(line):
         return "qad_" + t[5]
     if t[0] == "kro" and len(t) > 4:
         return "kro_" + t[4]
-    return t[0]
+    return t[0]          # fld ops dot vin ext krh gf2
 
 
 def kronecker_compiles():
@@ -59,7 +59,11 @@ def run(prop, tier, seed, replay=None):
         "through all q codes; for q <= 128 every non-zero class is inverted by exhaustion)",
         "the search for the irreducible / primitive polynomial (givpoly1factor.inl, givpoly1proot.inl) is C09's; here its *result* is checked per constructed object "
         "(generator chain closes with period exactly q-1, every non-zero class invertible for q <= 128)",
-        "Extension<>, GFqExt/GFqExtFast conversions and GFqKronecker conversions are tied by correspondence against schoolbook arithmetic / the packing formula only (no Lean theorem)",
+        "Extension<>: the member functions are modelled as the compositions of Poly1Dom calls written in extension.h; the Poly1Dom operations themselves "
+        "(add, mul, modin, invmod, maxpy) enter the theorem through their C08 laws (PolyLaws) and the driver through coefficient-list arithmetic that is not proved to satisfy those laws",
+        "GFqKronecker: table lookups (_log2bin, _bin2log, _Xk) are the GFqDom bijection; the model works on coefficient lists; Ints = arbitrary-precision naturals",
+        "GFqExt/GFqExtFast q-adic conversions: correspondence against the packing formula only (floating point; no Lean theorem beyond the defensive pre-reduction)",
+        "GFqDom::init(vector): Pdom.mod is taken by its C08 meaning (remainder modulo the reported polynomial); lowest_prim_root: phi(p) = p-1 and the prime factor list of p-1 are inputs (C13/C12)",
     ]
     L = flow.lean_stage(V, ["GivaroModel.Props.C05"], "GivaroModel/Props/C05.lean")
     configs = ("S",) if tier == "quick" else ("S", "R")
@@ -75,7 +79,14 @@ def run(prop, tier, seed, replay=None):
     if replay:
         with open(replay) as fh:
             lines = [l.split(" = ")[0] for l in json.load(fh).get("lines", []) if l]
-    res = flow.correspond(bins, "gfq", lines=lines, harness_args=([] if lines is not None else [tier, str(seed)]), timeout=3000)
+    if lines is None and tier == "thorough" and "R" in bins:
+        # the sanitizer build runs the whole thorough generator; the repository-flags build (which matters for the floating-point
+        # q-adic conversions and for what -O2 makes of undefined behaviour) runs the quick generator at a different seed
+        res = flow.correspond({"S": bins["S"]}, "gfq", lines=None, harness_args=[tier, str(seed)], timeout=3000)
+        res2 = flow.correspond({"R": bins["R"]}, "gfq", lines=None, harness_args=["quick", str(seed + 1000)], timeout=3000)
+        res = dict(results=res["results"] + res2["results"], crashes=res["crashes"] + res2["crashes"])
+    else:
+        res = flow.correspond(bins, "gfq", lines=lines, harness_args=([] if lines is not None else [tier, str(seed)]), timeout=3000)
     counts = flow.decide(V, res, known=report.findings_for(prop), key_of=key_of)
     kinds = {}
     for _, l, _ in res["results"]:
@@ -88,7 +99,10 @@ def run(prop, tier, seed, replay=None):
              "q = maxCardinality() as reported by the running code (2^16) and the largest prime below it, the fields of tests/test-ffarith.C, user-supplied irreducible "
              "and generator polynomials chosen by an independent brute-force search; operands: all triples for q <= 16, all pairs for q <= 64, beyond that the grid "
              "{0,1,2,3,mOne-1,mOne,mOne+1,q-3,q-2,q-1,(q-1)/2(+1),q/3} closed under x -> q-1-x, with c in {0, one, mOne, ab, -ab, random}; arrays of length 0 (child process),1,2,7 "
-             "for all sixteen forms; dot products of length 0,1,2,3,7; a line is non-trivial when an operand is outside {0,1}",
+             "for all sixteen forms; dot products of length 0,1,2,3,7; init from polynomials of every degree 0..2k+2 with leading coefficient 1 and p-1, stored leading zeros, the zero polynomial and "
+             "multiples of the defining polynomial, for every field with k >= 2; Extension<> over prime and non-prime base fields (special pool pairs, random triples, all pairs for tiny fields); "
+             "GFqKronecker histories: every sequence of setShift/setMaxn of length <= 2 over a ten-letter alphabet and sampled longer ones, then init from 1, 2, maxn-1, maxn accumulated products "
+             "(all-(p-1) operands, random, mixed); a line is non-trivial when an operand is outside {0,1}",
         extra={"lines_by_kind": kinds, "field_objects_with_tables_validated": fields},
         nontrivial=lambda l: l.split(" ")[0] != "fld" and any(t not in ("0", "1") for t in l.split(" = ")[0].split(" ")[7:]))
     V.finish()
